@@ -166,6 +166,33 @@ def solve(assumptions, goal, timeout_ms=None, use_cvc5=True, nl=False):
     return "unknown", None, "z3+cvc5", time.time() - t0
 
 
+def prove_eq_decomposed(assumptions, a, b, timeout_ms=5000, depth=0):
+    """Prove a == b: directly (short budget); if undecided and both terms are
+    applications of the same operator, prove the arguments equal pairwise
+    (congruence).  Returns (status, backend, seconds) with status 'unsat'
+    (equal), 'sat' or 'unknown'."""
+    t0 = time.time()
+    if z3.eq(z3.simplify(a), z3.simplify(b)):
+        return "unsat", "syntactic", 0.0
+    st, model, backend, dt = solve(assumptions, a == b, timeout_ms=timeout_ms, use_cvc5=False,
+                                   nl=not any(z3.is_quantifier(x) for x in assumptions))
+    if st == "unsat":
+        return "unsat", backend, time.time() - t0
+    if depth < 6 and z3.is_app(a) and z3.is_app(b) and a.decl().eq(b.decl()) and a.num_args() == b.num_args() \
+            and a.num_args() > 0:
+        worst = "unsat"
+        for x, y in zip(a.children(), b.children()):
+            if x.sort() != y.sort():
+                return "unknown", "decomposition", time.time() - t0
+            r, _, _ = prove_eq_decomposed(assumptions, x, y, timeout_ms, depth + 1)
+            if r != "unsat":
+                worst = "unknown"
+                break
+        if worst == "unsat":
+            return "unsat", "congruence+" + backend, time.time() - t0
+    return ("sat" if st == "sat" and depth == 0 else "unknown"), backend, time.time() - t0
+
+
 def model_to_dict(model):
     out = {}
     if model is None:
@@ -633,3 +660,22 @@ def run_parallel(reg, fn, jobs, nproc=None):
         for exp in pool.imap_unordered(_pool_worker,
                                        [(fn, j, reg.prop, reg.tier) for j in jobs], chunksize=1):
             reg.absorb(exp)
+
+
+def adopt(reg, fn, src_prop, only=None, args=()):
+    """Run a contract of another property (fn(subregistry, *args)) and adopt its
+    obligations under this property's id (optionally only ids containing `only`)."""
+    sub = Registry(src_prop, reg.tier)
+    fn(sub, *args)
+    ids = []
+    for oid, o in sub.obligations.items():
+        if only is None or only in oid:
+            o.id = oid.replace(src_prop + ".", reg.prop + ".", 1)
+            if o.status == "violated" and o.replay:
+                pass
+            reg.obligations[o.id] = o
+            ids.append(o.id)
+    reg.functions.update(sub.functions)
+    reg.solver_seconds += sub.solver_seconds
+    reg.errors.extend(sub.errors)
+    return ids
